@@ -254,3 +254,126 @@ Proof.
   match goal with |- context [if ?c then _ else _] => destruct c eqn:E end; [|apply Nat.ltb_ge in E; change (T ROps) with R in *; lia].
   destruct uv; [contradiction|reflexivity].
 Qed.
+
+(* ------------------------------------------------------------------ adjoint identity  Re <V, A I> = <Re (A^H V), I> *)
+Lemma combine_swap {A B} (a : list A) (b : list B) : combine a b = map (fun p => (snd p, fst p)) (combine b a).
+Proof. revert b; induction a as [|x a IH]; intros [|y b]; cbn; auto. rewrite IH. reflexivity. Qed.
+Lemma sumR_scal_r {A} (f : A -> R) c l : sumR (map (fun x => f x * c) l) = sumR (map f l) * c.
+Proof. induction l; cbn; [ring|]. rewrite IHl. ring. Qed.
+Lemma sumR_lin2 {A} (a b : A -> R) c d l :
+  sumR (map (fun x => a x * c + b x * d) l) = sumR (map a l) * c + sumR (map b l) * d.
+Proof. induction l; cbn; [ring|]. rewrite IHl. ring. Qed.
+
+Lemma adjoint_identity (img : list R) (grid uv vis : list (R * R)) :
+  sumR (map (fun wv : (R * R) * (R * R) => fst (fst wv) * fst (snd wv) + snd (fst wv) * snd (snd wv))
+            (combine (@dft_spec ROps img grid uv) vis))
+  = sumR (map (fun xi : R * R => fst xi * snd xi) (combine (@adjoint_re_spec ROps grid uv vis) img)).
+Proof.
+  rewrite dft_spec_unfold, adjoint_re_unfold, !combine_map_l, !map_map. cbn [fst snd].
+  (* right: sum over (g, I) of (sum_kv adj_term g kv) * I -> over (I, g), scalar inside, exchange *)
+  rewrite (combine_swap grid img), map_map. cbn [fst snd].
+  rewrite (sumR_map_ext (fun x : R * (R * R) => sumR (map (adj_term (snd x)) (combine uv vis)) * fst x)
+                        (fun x : R * (R * R) => sumR (map (fun kv => adj_term (snd x) kv * fst x) (combine uv vis))))
+    by (intros x _; symmetry; apply sumR_scal_r).
+  rewrite (sumR_swap (fun (x : R * (R * R)) (kv : (R * R) * (R * R)) => adj_term (snd x) kv * fst x)).
+  apply sumR_map_ext. intros kv _.
+  rewrite <- sumR_map_opp.
+  rewrite <- (sumR_lin2 (fun ig : R * (R * R) => fst ig * cos (2 * PI * (snd (snd ig) * fst (fst kv) + fst (snd ig) * snd (fst kv))))
+                        (fun ig : R * (R * R) => - (fst ig * sin (2 * PI * (snd (snd ig) * fst (fst kv) + fst (snd ig) * snd (fst kv)))))).
+  apply sumR_map_ext. intros ig _. unfold adj_term, phase. cbn [add mul ROps]. unfold cx in *. change (T ROps) with R in *. ring.
+Qed.
+
+(* ------------------------------------------------------------------ the sparsity test [value != 0] changes nothing *)
+Lemma sumR_skip_zero {A} (c : A -> bool) (g : A -> R) l : (forall a, c a = true -> g a = 0) ->
+  sumR (flat_map (fun a => if c a then [] else [g a]) l) = sumR (map g l).
+Proof.
+  intros H. induction l as [|a l IH]; cbn [flat_map map sumR]; auto.
+  rewrite sumR_app, IH. destruct (c a) eqn:E; cbn [sumR]; [rewrite (H a E)|]; lra.
+Qed.
+Lemma scatter_tab_nz K (col : list R) (tab : list (list R)) : rectn K tab = true ->
+  @scatter ROps (@entries_tab_nz ROps col tab) (zeros K)
+  = map (fun k => sumR (map (fun ir : R * list R => fst ir * nth k (snd ir) 0) (combine col tab))) (seq 0 K).
+Proof.
+  intros Hr. apply nth_ext with (d := 0) (d' := 0).
+  - rewrite scatter_length, length_zeros, map_length, seq_length. reflexivity.
+  - intros n Hn. rewrite scatter_length, length_zeros in Hn.
+    rewrite scatter_gather_zeros.
+    + rewrite nth_map_seq by exact Hn. unfold entries_tab_nz. rewrite hits_flat_map.
+      rewrite flat_map_ext_in with (g := fun ir : R * list R => if Reqb (fst ir) 0 then [] else [fst ir * nth n (snd ir) 0]).
+      * apply (sumR_skip_zero (fun ir : R * list R => Reqb (fst ir) 0) (fun ir : R * list R => fst ir * nth n (snd ir) 0)).
+        intros a Ha. apply Reqb_true in Ha. rewrite Ha. ring.
+      * intros ir Hir. cbn [eqb ROps]. rewrite zero_R. change (T ROps) with R in *. destruct (Reqb (fst ir) 0); [reflexivity|].
+        pose proof (hits_enum (fun b : R => fst ir * b) (snd ir) 0 n) as E.
+        rewrite (combine_in_r_rect K col tab ir Hr Hir) in E. apply Nat.ltb_lt in Hn. rewrite Hn in E. exact E.
+    + unfold entries_tab_nz. apply Forall_flat_map. intros ir Hir. cbn [eqb ROps]. change (T ROps) with R in *.
+      destruct (Reqb (fst ir) (@zero ROps)); [constructor|].
+      rewrite <- (combine_in_r_rect K col tab ir Hr Hir).
+      apply (Forall_enum_map (fun b : R => fst ir * b) (snd ir)).
+Qed.
+Lemma scatter_tab_nz_same K (col : list R) (tab : list (list R)) : rectn K tab = true ->
+  @scatter ROps (@entries_tab_nz ROps col tab) (zeros K) = @scatter ROps (@entries_tab ROps col tab) (zeros K).
+Proof. intros H. rewrite scatter_tab_nz, scatter_tab by exact H. reflexivity. Qed.
+
+Lemma table_spec_rect (f : R -> R) (grid uv : list (R * R)) : rectn (length uv) (@table_spec ROps f grid uv) = true.
+Proof.
+  unfold rectn, table_spec. apply forallb_forall. intros r Hr. apply in_map_iff in Hr. destruct Hr as [g [<- _]].
+  rewrite map_length. apply Nat.eqb_refl.
+Qed.
+Lemma entries_dir_as_tab (f : R -> R) (img : list R) (grid uv : list (R * R)) :
+  @entries_dir ROps f img grid uv = @entries_tab ROps img (@table_spec ROps f grid uv).
+Proof.
+  unfold entries_tab, entries_dir, table_spec.
+  rewrite combine_map_r, flat_map_map. apply flat_map_ext. intros ig. cbn [fst snd].
+  rewrite enum_map, map_map. reflexivity.
+Qed.
+Lemma entries_dir_nz_as_tab (f : R -> R) (col : list R) (grid uv : list (R * R)) :
+  @entries_dir_nz ROps f col grid uv = @entries_tab_nz ROps col (@table_spec ROps f grid uv).
+Proof.
+  unfold entries_tab_nz, entries_dir_nz, table_spec.
+  rewrite combine_map_r, flat_map_map. apply flat_map_ext. intros ig. cbn [fst snd].
+  rewrite enum_map, map_map. reflexivity.
+Qed.
+Lemma scatter_dir_nz_same (f : R -> R) (col : list R) (grid uv : list (R * R)) :
+  @scatter ROps (@entries_dir_nz ROps f col grid uv) (zeros (length uv))
+  = @scatter ROps (@entries_dir ROps f col grid uv) (zeros (length uv)).
+Proof. rewrite entries_dir_nz_as_tab, entries_dir_as_tab. apply scatter_tab_nz_same, table_spec_rect. Qed.
+
+(* ------------------------------------------------------------------ column j of the transformed matrix = operator on column j *)
+Lemma from_columns_column {A} (d : A) K (cols : list (list A)) j : (j < length cols)%nat -> length (nth j cols []) = K ->
+  map (fun row => nth j row d) (from_columns d K cols) = nth j cols [].
+Proof.
+  intros Hj HK. unfold from_columns. rewrite map_map.
+  transitivity (map (fun k => nth k (nth j cols []) d) (seq 0 K)).
+  - apply map_ext. intros k. rewrite (nth_map_in (fun col : list A => nth k col d) cols j []) by exact Hj. reflexivity.
+  - rewrite <- HK. apply map_nth_seq.
+Qed.
+Lemma length_visibilities_jit (img : list R) (grid uv : list (R * R)) : length (@visibilities_jit ROps img grid uv) = length uv.
+Proof. rewrite visibilities_formula. unfold dft_spec. apply map_length. Qed.
+
+Lemma from_columns_map_column {A} (d : A) K P (G : nat -> list A) j : (j < P)%nat -> length (G j) = K ->
+  map (fun row => nth j row d) (from_columns d K (map G (seq 0 P))) = G j.
+Proof.
+  intros Hj HK. rewrite from_columns_column.
+  - apply (nth_map_seq G [] P j Hj).
+  - rewrite map_length, seq_length. exact Hj.
+  - rewrite (nth_map_seq G [] P j Hj). exact HK.
+Qed.
+Lemma tmm_jit_column P (M : list (list R)) (grid uv : list (R * R)) j : (j < P)%nat ->
+  map (fun row => nth j row (@czero ROps)) (@tmm_jit ROps P M grid uv) = @visibilities_jit ROps (@column ROps M j) grid uv.
+Proof.
+  intros Hj. unfold tmm_jit. etransitivity.
+  - apply from_columns_map_column; [exact Hj|]. cbv beta.
+    unfold cx. rewrite combine_length, !scatter_length, !length_zeros. apply Nat.min_id.
+  - cbv beta. unfold visibilities_jit. rewrite !scatter_dir_nz_same. reflexivity.
+Qed.
+Lemma length_via_preload K (img : list R) (preR preI : list (list R)) : length (@visibilities_via_preload ROps K img preR preI) = K.
+Proof. unfold visibilities_via_preload, cx. rewrite combine_length, !scatter_length, !length_zeros. apply Nat.min_id. Qed.
+Lemma tmm_via_preload_column K P (M preR preI : list (list R)) j : (j < P)%nat -> rectn K preR = true -> rectn K preI = true ->
+  map (fun row => nth j row (@czero ROps)) (@tmm_via_preload ROps K P M preR preI)
+  = @visibilities_via_preload ROps K (@column ROps M j) preR preI.
+Proof.
+  intros Hj HR HI. unfold tmm_via_preload. etransitivity.
+  - apply from_columns_map_column; [exact Hj|]. cbv beta.
+    unfold cx. rewrite combine_length, !scatter_length, !length_zeros. apply Nat.min_id.
+  - cbv beta. unfold visibilities_via_preload. rewrite !scatter_tab_nz_same by assumption. reflexivity.
+Qed.
